@@ -12,6 +12,8 @@ CONSTANTS
   BigN = 0
   Acts = {"SetAlpha"}
   D = 4
+  NameFamily = "plain"
+  NameImpl = "asis"
 INVARIANT C06_AsisIsRef
 INVARIANT C06_HardIsExport
 INVARIANT C06_Bounds
